@@ -368,10 +368,18 @@ def addUnique (t : Table) (cols : List Nat) : Table × Out :=
     let u : UIdx := { cols := cols, skipNull := true, keys := [] }
     ({ t with idxs := (t.idxs ++ [u]).map (·.rebuild t.rows) }, .ok 0)
 
+/-- the new CHECK evaluated on every existing row -/
+def checkAllRows (c : Expr) : List Row → Except DErr Unit
+  | [] => .ok ()
+  | r :: rs =>
+    match checkChecks [c] r with
+    | .error e => .error e
+    | .ok () => checkAllRows c rs
+
 def addCheck (t : Table) (c : Expr) : Table × Out :=
-  match t.rows.mapM (fun r => checkChecks [c] r) with
+  match checkAllRows c t.rows with
   | .error e => (t, .err e)
-  | .ok _ => ({ t with checks := t.checks ++ [c] }, .ok 0)
+  | .ok () => ({ t with checks := t.checks ++ [c] }, .ok 0)
 
 end Table
 
